@@ -284,9 +284,11 @@ class CollisionArray:
 
                         collisionFileArray[i, :, :, j, :, :] = collisionDataset
                         
-                except FileNotFoundError:
+                except OSError as error:
+                    # FileNotFoundError, or a file that h5py cannot open as HDF5
+                    # (e.g. a git-lfs pointer that was never pulled)
                     raise CollisionLoadError(
-                        f"CollisionArray error: {filename} not found."
+                        f"CollisionArray error: {filename} not found or not readable ({error})."
                     )
 
         collisionFileArray = collisionFileArray.reshape(
